@@ -23,7 +23,7 @@ RULE = ("histories through the real kvarn::handle_cache in process (component va
         "after the end, start > end, unparsable); every history = first pass in some arrival order, dump of the stored variant vector, second pass, "
         "dump; thorough: all arrival orders of every chosen request multiset of size <= 5, random orders beyond; quick: all orders of size <= 4 for a few "
         "sets, all orders of 2-4 tuples whose components run together to the same text (('ab','c') / ('a','bc') / ('abc','') ...) + random. Compared per "
-        "request with the extracted model: status, vary header, last-modified presence, decoded body, identity body, handler invocation log; per dump: "
+        "request with the extracted model: status, vary header, decoded body, identity body, handler invocation log; per dump: "
         "the stored header lists in vector order; on the wire: status, every vary line, decoded body, handler log. Spec oracles: (1) component vary.spec = "
         "finite map (page, transformed tuple) -> response (pages stored under the path key, no conditional requests); (2) an independent reading of the "
         "property in Python on the implementation's output alone (every sequential history, in process and on the wire, incl. QueryMatters pages and "
@@ -95,7 +95,7 @@ LEVEL_NOTE = ("Trusted: Coq kernel; extraction (sample re-checked in-kernel); ha
 TECHNIQUE = ("Coq proof (inductive invariant over all histories + refinement of the sorted vector to a finite map + send as a function of the reply) + "
              "differential correspondence on kvarn::handle_cache and on kvarn::handle_connection over loopback")
 
-REPORT = [b"vary", b"?last-modified"]
+REPORT = [b"vary"]      # (the presence of last-modified is C04's subject: not compared here)
 
 # ---- menus -------------------------------------------------------------------------------
 NAMES = [b"x-a", b"x-b", b"x-c", b"accept-language", b"x-a", b"x-b"]
